@@ -82,7 +82,7 @@ type uScript struct {
 	Steps   []uStep   `json:"steps"`
 	Watch   int       `json:"watch"` // watchdog per call in ms (default 3000)
 	Settle  int       `json:"settle"`
-	Both    bool      `json:"both"` // C13: run twice (fresh buffers / reused and scribbled buffers) and compare emissions
+	Both    bool      `json:"both"`   // C13: run twice (fresh buffers / reused and scribbled buffers) and compare emissions
 	NoWire  bool      `json:"nowire"` // C12: do not log packets reaching the transport side (long runs)
 	Strict  bool      `json:"strict"` // C11: goroutine census 2 ms after Close returned, without the usual grace period
 	Rebind  bool      `json:"rebind"` // C11 P5: run twice (with / without the first life of stream rs) and record observations about rs
@@ -148,31 +148,31 @@ type uFactory func(string) (interceptor.Interceptor, error)
 func (f uFactory) NewInterceptor(id string) (interceptor.Interceptor, error) { return f(id) }
 
 type uEnv struct {
-	t       *testing.T
-	out     *vfWriter
-	mu      sync.Mutex // orders every logged event
-	probes  []*uProbe
-	dump    *uSyncBuf
-	closed  bool // Close has returned
-	inflight map[*rtp.Header]*uFlight // application RTP writes in progress, keyed by the caller's header object
-	curRTCP rtcp.Packet
-	failNow bool
-	wireApp []vfM
-	nextRTP map[uint32][]byte
-	nextErr bool
-	nextRC  []byte
-	pacing  *pacing.InterceptorFactory
-	nowire   bool
-	nActivity    int  // pacer updates / rate callbacks seen so far
-	failInjected bool // the transport-side RTCP writer fails every write the chain originates
+	t            *testing.T
+	out          *vfWriter
+	mu           sync.Mutex // orders every logged event
+	probes       []*uProbe
+	dump         *uSyncBuf
+	closed       bool                     // Close has returned
+	inflight     map[*rtp.Header]*uFlight // application RTP writes in progress, keyed by the caller's header object
+	curRTCP      rtcp.Packet
+	failNow      bool
+	wireApp      []vfM
+	nextRTP      map[uint32][]byte
+	nextErr      bool
+	nextRC       []byte
+	pacing       *pacing.InterceptorFactory
+	nowire       bool
+	nActivity    int             // pacer updates / rate callbacks seen so far
+	failInjected bool            // the transport-side RTCP writer fails every write the chain originates
 	failStreams  map[uint32]bool // local streams whose transport-side RTP writer always fails
-	statsGetter stats.Getter
-	okW, okR    map[uint32]int // successful application writes / reads per SSRC
-	quiet    bool  // collect emissions only, log nothing
-	scribble bool  // overwrite caller-owned buffers as soon as a call has returned
-	emis     []vfM // everything the chain emitted or recorded that derives from packet contents
-	readBuf  []byte
-	rb       *uRebind // C11 re-bind mode: controlled clock, tick gates, observation recorder (nil otherwise)
+	statsGetter  stats.Getter
+	okW, okR     map[uint32]int // successful application writes / reads per SSRC
+	quiet        bool           // collect emissions only, log nothing
+	scribble     bool           // overwrite caller-owned buffers as soon as a call has returned
+	emis         []vfM          // everything the chain emitted or recorded that derives from packet contents
+	readBuf      []byte
+	rb           *uRebind // C11 re-bind mode: controlled clock, tick gates, observation recorder (nil otherwise)
 }
 
 type uFlight struct {
@@ -193,6 +193,18 @@ func (s *uSyncBuf) Write(p []byte) (int, error) {
 	}
 
 	return s.b.Write(p)
+}
+
+// uRaceBuf is a sink that is NOT safe for concurrent use (like a bytes.Buffer or a file opened by the application):
+// packetdump documents one logger goroutine per interceptor, so one sink per dump member is only ever entered by that
+// goroutine.  Under the race detector a second goroutine entering it is reported.
+type uRaceBuf struct{ n, calls int }
+
+func (s *uRaceBuf) Write(p []byte) (int, error) {
+	s.n += len(p)
+	s.calls++
+
+	return len(p), nil
 }
 
 func (e *uEnv) emit(v vfM) {
@@ -344,20 +356,22 @@ func (e *uEnv) factory(m uMember) (interceptor.Factory, error) { //nolint:cyclop
 
 		return f, err
 	case "pdrecv":
+		sink := &uRaceBuf{}
 		if uOpt(m, "text", 0) != 0 { // text formatter only (no binary formatter configured)
-			return packetdump.NewReceiverInterceptor(packetdump.RTPWriter(e.dump), packetdump.RTCPWriter(e.dump),
+			return packetdump.NewReceiverInterceptor(packetdump.RTPWriter(sink), packetdump.RTCPWriter(sink),
 				packetdump.RTPFormatter(e.dumpRTPText))
 		}
 
-		return packetdump.NewReceiverInterceptor(packetdump.RTPWriter(e.dump), packetdump.RTCPWriter(e.dump),
+		return packetdump.NewReceiverInterceptor(packetdump.RTPWriter(sink), packetdump.RTCPWriter(sink),
 			packetdump.RTPBinaryFormatter(e.dumpRTP))
 	case "pdsend":
+		sink := &uRaceBuf{}
 		if uOpt(m, "text", 0) != 0 {
-			return packetdump.NewSenderInterceptor(packetdump.RTPWriter(e.dump), packetdump.RTCPWriter(e.dump),
+			return packetdump.NewSenderInterceptor(packetdump.RTPWriter(sink), packetdump.RTCPWriter(sink),
 				packetdump.RTPFormatter(e.dumpRTPText))
 		}
 
-		return packetdump.NewSenderInterceptor(packetdump.RTPWriter(e.dump), packetdump.RTCPWriter(e.dump),
+		return packetdump.NewSenderInterceptor(packetdump.RTPWriter(sink), packetdump.RTCPWriter(sink),
 			packetdump.RTPBinaryFormatter(e.dumpRTP))
 	case "ccslow": // cc interceptor whose pacer takes its time in SetTargetBitrate and that reports rate changes
 		return cc.NewInterceptor(func() (cc.BandwidthEstimator, error) {
@@ -375,17 +389,29 @@ func (e *uEnv) factory(m uMember) (interceptor.Factory, error) { //nolint:cyclop
 			flexfec.NumMediaPackets(uint32(uOpt(m, "k", 2))), flexfec.NumFECPackets(uint32(uOpt(m, "n", 1)))) //nolint:gosec
 	case "cc":
 		return cc.NewInterceptor(func() (cc.BandwidthEstimator, error) {
-			return gcc.NewSendSideBWE(gcc.SendSideBWEPacer(gcc.NewNoOpPacer()))
+			bwe, err := gcc.NewSendSideBWE(gcc.SendSideBWEPacer(gcc.NewNoOpPacer()))
+			if err == nil { // an observer that asks the estimator from inside its rate-change callback
+				bwe.OnTargetBitrateChange(func(int) { _ = bwe.GetTargetBitrate(); _ = bwe.GetStats() })
+			}
+
+			return bwe, err
 		})
 	case "ccleaky":
 		rate := uOpt(m, "rate", 0)
 
 		return cc.NewInterceptor(func() (cc.BandwidthEstimator, error) {
+			var bwe *gcc.SendSideBWE
+			var err error
 			if rate > 0 {
-				return gcc.NewSendSideBWE(gcc.SendSideBWEInitialBitrate(rate), gcc.SendSideBWEMaxBitrate(2*rate))
+				bwe, err = gcc.NewSendSideBWE(gcc.SendSideBWEInitialBitrate(rate), gcc.SendSideBWEMaxBitrate(2*rate))
+			} else {
+				bwe, err = gcc.NewSendSideBWE()
+			}
+			if err == nil {
+				bwe.OnTargetBitrateChange(func(int) { _ = bwe.GetTargetBitrate() })
 			}
 
-			return gcc.NewSendSideBWE()
+			return bwe, err
 		})
 	case "jitter":
 		return jitterbuffer.NewInterceptor()
@@ -1041,7 +1067,7 @@ func uRunX(t *testing.T, sc *uScript, out *vfWriter, scribble, quiet bool, rb *u
 				h.PayloadType = 96
 				if st.Tw >= 0 && b.info.RTPHeaderExtensions != nil {
 					ext, _ := (&rtp.TransportCCExtension{TransportSequence: uint16(st.Tw)}).Marshal() //nolint:gosec
-					_ = h.SetExtension(uint8(b.info.RTPHeaderExtensions[0].ID), ext)               //nolint:gosec
+					_ = h.SetExtension(uint8(b.info.RTPHeaderExtensions[0].ID), ext)                  //nolint:gosec
 				}
 				rawb, _ = (&rtp.Packet{Header: *h, Payload: pl}).Marshal()
 			}
@@ -1120,6 +1146,8 @@ func uRunX(t *testing.T, sc *uScript, out *vfWriter, scribble, quiet bool, rb *u
 					}}}
 				case "twccfb":
 					p = &rtcp.TransportLayerCC{
+						// (without the header pion/rtcp marshals a packet of type 0 that every parser rejects)
+						Header:     rtcp.Header{Padding: true, Count: rtcp.FormatTCC, Type: rtcp.TypeTransportSpecificFeedback, Length: 6},
 						SenderSSRC: 7, MediaSSRC: st.S, BaseSequenceNumber: uint16(st.Tw), PacketStatusCount: 3, ReferenceTime: 5, //nolint:gosec
 						FbPktCount: uint8(st.ID), //nolint:gosec
 						PacketChunks: []rtcp.PacketStatusChunk{&rtcp.RunLengthChunk{
@@ -1237,7 +1265,7 @@ func uRunX(t *testing.T, sc *uScript, out *vfWriter, scribble, quiet bool, rb *u
 				}
 				if g := e.statsGetter.Get(ssrc); g != nil {
 					e.mu.Lock()
-					e.okW[ssrc] = int(g.OutboundRTPStreamStats.PacketsSent)     //nolint:gosec
+					e.okW[ssrc] = int(g.OutboundRTPStreamStats.PacketsSent)    //nolint:gosec
 					e.okR[ssrc] = int(g.InboundRTPStreamStats.PacketsReceived) //nolint:gosec
 					e.mu.Unlock()
 				}
@@ -1490,7 +1518,9 @@ type uRebind struct {
 	pli0       int
 }
 
-func (rb *uRebind) now() time.Time { return uEpoch.Add(time.Duration(rb.clk.Load()) * time.Millisecond) }
+func (rb *uRebind) now() time.Time {
+	return uEpoch.Add(time.Duration(rb.clk.Load()) * time.Millisecond)
+}
 
 func (rb *uRebind) newTicker() *uTicker {
 	tk := &uTicker{rb: rb, c: make(chan time.Time)}
